@@ -1,10 +1,11 @@
 /- Registry of line-protocol commands: one `xxxCmds` list per Driver/*.lean file. -/
 import QExPy.Driver.Json
 import QExPy.Driver.Expr
+import QExPy.Driver.Settings
 namespace QExPy.Drv
 open Lean
 
 def allCmds : List (String × (Json → R Json)) :=
-  exprCmds
+  exprCmds ++ settingsCmds
 
 end QExPy.Drv
